@@ -109,6 +109,24 @@ def DiskCls.linspace : DiskCls → Nat × Nat × Bool
   | .half => (4, 5, true)
   | .fourCore => (8, 8, false)
 
+/-- the `ratios` list of the class (names of the `DiskBase` attributes) -/
+def DiskCls.ratioNames : DiskCls → List String
+  | .oneCore => ["diagonal_ratio"]
+  | _ => ["core_ratio", "diagonal_ratio"]
+
+/-- the layout of the positions list handed to `MappedSketch.__init__` -/
+def DiskCls.layout : DiskCls → List String
+  | .oneCore => ["*pattern.get_inner_points(angles,ratios)", "*pattern.get_outer_points(angles)"]
+  | _ => ["center_point", "*pattern.get_inner_points(angles,ratios)", "*pattern.get_outer_points(angles)"]
+
+/-- what the model assumes about the source of the six disk classes, in the format of the regenerated table
+    `CBV.Gen.c11DiskGen` (`wrappedPts` and `ovalPts` use `linspaceIdx 8 4 false` resp. `linspaceIdx 4 5 true`) -/
+def diskGenRows : List (String × (Nat × Nat × Bool) × List String × List String) :=
+  [DiskCls.oneCore, .quarter, .half, .fourCore].map (fun cl => (cl.name, cl.linspace, cl.ratioNames, cl.layout)) ++
+  [("WrappedDisk", (8, 4, false), [], ["*square_points", "*arc_points", "*outer_points"]),
+   ("Oval", (4, 5, true), ["core_ratio", "diagonal_ratio"],
+    ["center_point_1", "*inner_points_1", "center_point_2", "*inner_points_2", "*outer_points_1", "*outer_points_2"])]
+
 def DiskCls.idx (cl : DiskCls) : List Nat := linspaceIdx cl.linspace.1 cl.linspace.2.1 cl.linspace.2.2
 
 /-- the positions handed to `MappedSketch.__init__` by the four classes (`k = core_ratio`, `dg = diagonal_ratio`) -/
